@@ -61,6 +61,7 @@ class Ctx:
         self.case = case
         self.mode = "symbolic"
         self.native = False
+        self.ghost = {}
 
     # ---- inputs
     def int(self, name, lo=None, hi=None):
@@ -134,6 +135,15 @@ class Ctx:
 
     def calls(self, rec):
         return rec.attrs["__calls__"]
+
+    def bytearray_of(self, b):
+        return ByteArr(to_bytes_val(b))
+
+    def bytes_val(self, b):
+        return to_bytes_val(b)
+
+    def truth(self, v):
+        return self.I.truth_value(v)
 
     def bytes_of(self, items):
         return BList(list(items))
